@@ -16,7 +16,7 @@ type zvEnt struct {
 func ZvC10_S2_History() {
 	t := New[int, int]()
 	var m []zvEnt
-	steps := vrt.Choice(vrt.Pick(4, 6)) + 1
+	steps := vrt.Choice(vrt.Pick(4, 5)) + 1
 	for s := 0; s < steps; s++ {
 		switch vrt.Choice(3) {
 		case 0:
